@@ -15,6 +15,7 @@ let table : (string * (z list -> z list)) list = [
   ("quad_edge", run_quad_edge);
   ("cubic_edge", run_cubic_edge);
   ("cubic_pin", run_cubic_pin);
+  ("cubics_exact", run_cubics_exact);
   ("fill_px", run_fill_px);
   ("aruns", run_aruns);
   ("aa_spans", run_aa_spans);
